@@ -65,6 +65,8 @@ def gen_seq(rng):
             seq.append(("binarize", {"bare_bin_labels": True} if rng.random() < 0.3 else {}))
     if rng.random() < 0.2 and not any(c[0] == "add_topnode" for c in seq):
         seq.append(("add_topnode", {}))
+    elif rng.random() < 0.08:
+        seq.append(("add_topnode", {}))          # every application adds one node, also on a tree that has a TOP already
     collapsed = False
     if rng.random() < 0.35:
         seq.append(("collapse_unary_chains", {}))
@@ -93,6 +95,8 @@ def single(rng):
     prefix, call = single_cases(rng)
     plain = call[0] in ("collapse_unary_chains", "uncollapse_unary_chains")
     t = mk_tree(rng, plain, paired=(call[0] == "punctuation_symetrify" and rng.random() < 0.7))
+    if call[0] == "add_topnode" and rng.random() < 0.3:
+        t.data['label'] = "TOP"          # a tree whose root happens to be labelled TOP (with several children) is a tree like any other
     if call[0] == "uncollapse_unary_chains":
         # labels without '+', chain labels get joined by collapse
         pass
